@@ -145,7 +145,7 @@ theorem C05_step_refines (cfg : Cfg) (hb : 1 ≤ cfg.bufsize) (s : St) (hi : Inv
       | fuel => exact absurd rfl nf1
       | err413 => exact ⟨i1, f1, t1, by simp, en1, fun _ => er1 rfl, by simp⟩
       | ok b =>
-        obtain ⟨e1, e2, e3, _, e5⟩ := ok1 b rfl
+        obtain ⟨e1, e2, e3, _, e5, _⟩ := ok1 b rfl
         rw [specStep_readline _ _ _ h0]
         exact ⟨i1, f1, t1, by simp, en1, by simp, fun _ => ⟨by simpa using e1, e2, e3, e5⟩⟩
   | readlines h =>
@@ -176,7 +176,7 @@ theorem C05_step_refines (cfg : Cfg) (hb : 1 ≤ cfg.bufsize) (s : St) (hi : Inv
     | fuel => exact absurd rfl nf1
     | err413 => exact ⟨i1, f1, t1, by simp, en1, fun _ => er1 rfl, by simp⟩
     | ok b =>
-      obtain ⟨e1, e2, e3, _, e5⟩ := ok1 b rfl
+      obtain ⟨e1, e2, e3, _, e5, _⟩ := ok1 b rfl
       simp only [List.nil_append] at e1
       simp only
       by_cases hbe : b.isEmpty = true
